@@ -522,6 +522,84 @@ fn gen_stale(count: u64, seed: u64) {
     }
 }
 
+/// Admission contests, enumerated: a cache filled to its capacity by two or three residents of
+/// every combination of small weights (zero included) and small popularities, in every recency
+/// order the reads produce, then a newcomer of every small weight and popularity; then a lookup
+/// of every key. On the concurrent cache every call is followed by sync() (eager use), so the
+/// monitors of C12 and C13 know the order in which maintenance applied the calls.
+fn gen_admit(kind: &str, count: u64, seed: u64) {
+    use std::io::Write;
+    let out = std::io::stdout();
+    let mut o = std::io::BufWriter::new(out.lock());
+    let mut rng = Rng::new(seed);
+    let sync = kind == "sync";
+    let mut all: Vec<Value> = Vec::new();
+    for r in [2u32, 3] {
+        let n = r + 1;
+        let nw = 3u64.pow(r);
+        let np = 3u64.pow(r);
+        for wcode in 0..nw {
+            let ws: Vec<u32> = (0..r).map(|i| ((wcode / 3u64.pow(i)) % 3) as u32).collect();
+            let total: u32 = ws.iter().sum();
+            if total == 0 {
+                continue;
+            }
+            for pcode in 0..np {
+                let ps: Vec<u32> = (0..r).map(|i| ((pcode / 3u64.pow(i)) % 3) as u32).collect();
+                for wc in 1..=3u32 {
+                    for pc in 0..4u32 {
+                        // three residents: a seeded third of the combinations
+                        if r == 3 && !rng.chance(1, 3) {
+                            continue;
+                        }
+                        let cfg = json!({"kind": kind, "cap": total, "ttl": -1, "tti": -1, "weigher": true,
+                            "hasher": "id", "nkeys": 4, "lean": false, "seed": 0});
+                        let mut ops: Vec<Value> = Vec::new();
+                        let mut push = |ops: &mut Vec<Value>, op: Value| {
+                            ops.push(op);
+                            if sync {
+                                ops.push(json!({"op": "Sync"}));
+                            }
+                        };
+                        for k in 1..=r {
+                            push(&mut ops, json!({"op": "Insert", "k": k, "v": k, "w": ws[(k - 1) as usize]}));
+                        }
+                        // the reads, resident by resident from a seeded starting point (the order
+                        // of the last reads is the recency order), then the newcomer's misses
+                        let start = rng.below(r as u64) as u32;
+                        for j in 0..r {
+                            let k = 1 + (start + j) % r;
+                            for _ in 0..ps[(k - 1) as usize] {
+                                push(&mut ops, json!({"op": "Get", "k": k}));
+                            }
+                        }
+                        for _ in 0..pc {
+                            push(&mut ops, json!({"op": "Get", "k": n}));
+                        }
+                        push(&mut ops, json!({"op": "Insert", "k": n, "v": 10 + n, "w": wc}));
+                        for k in 1..=n {
+                            ops.push(json!({"op": "Contains", "k": k}));
+                        }
+                        ops.push(json!({"op": "Iter"}));
+                        all.push(json!({"cfg": cfg, "ops": ops}));
+                    }
+                }
+            }
+        }
+    }
+    let total = all.len() as u64;
+    let mut id = 0u64;
+    for (i, mut b) in all.into_iter().enumerate() {
+        let left = total - i as u64;
+        let want = count.saturating_sub(id);
+        if total <= count || rng.below(left) < want {
+            b["id"] = json!(id);
+            writeln!(o, "{}", b).unwrap();
+            id += 1;
+        }
+    }
+}
+
 /// The flush points at their real values: in the far regime (nothing but a full-enough log
 /// triggers maintenance) runs of writes and of reads that stop just below, at and just above
 /// 64 records, over a handful of keys; the snapshots after every call show the queue lengths.
@@ -586,6 +664,11 @@ pub fn cmd_gen(args: &[String]) {
     if args[0] == "unsync-batch" || args[0] == "sync-batch" {
         let kind = if args[0] == "unsync-batch" { "unsync" } else { "sync" };
         gen_batch(kind, args[2].parse().unwrap(), args[1].parse().unwrap());
+        return;
+    }
+    if args[0] == "unsync-admit" || args[0] == "sync-admit" {
+        let kind = if args[0] == "unsync-admit" { "unsync" } else { "sync" };
+        gen_admit(kind, args[2].parse().unwrap(), args[1].parse().unwrap());
         return;
     }
     if args[0] == "sync-reads" {
